@@ -653,6 +653,39 @@ static const char* check_sorted(const std::vector<int>& keys, int mode, Cmp cmp)
     }
     return NULL;
 }
+// the other public overloads: sort(T*, count) with operator<, sort(Array<T>&) and sort(Array<T>&, cmp) on an array whose
+// capacity exceeds its count and whose slack holds values that order BEFORE every live element (and a canary after the slack)
+static bool int_greater(const int& a, const int& b) { return a > b; }
+static const char* check_sort_overloads(const std::vector<int>& keys) {
+    int64_t n = (int64_t)keys.size();
+    std::vector<int> want(keys);
+    std::sort(want.begin(), want.end());
+    {
+        std::vector<int> a(n + 2, -777);
+        for (int64_t i = 0; i < n; i++) a[i + 1] = keys[i];
+        sort(a.data() + 1, n);
+        if (a[0] != -777 || a[n + 1] != -777) return "sort(T*, count) wrote outside the range";
+        for (int64_t i = 0; i < n; i++) if (a[i + 1] != want[i]) return "sort(T*, count) is not the ordered permutation";
+    }
+    for (int with_cmp = 0; with_cmp < 2; with_cmp++) {
+        const int slack = 3;
+        Array<int> arr = {};
+        arr.ensure_slots(n + slack + 1);
+        for (int64_t i = 0; i < n; i++) arr.append_unsafe(keys[i]);
+        for (int k = 0; k < slack; k++) arr.items[n + k] = with_cmp ? 1000000 + k : -1000000 - k;   // stale values beyond count
+        arr.items[n + slack] = -777;
+        uint64_t cap = arr.capacity;
+        if (with_cmp) sort(arr, int_greater); else sort(arr);
+        const char* e = NULL;
+        if (arr.count != (uint64_t)n || arr.capacity != cap) e = "sort(Array&) changed count or capacity";
+        for (int64_t i = 0; i < n && !e; i++) if (arr.items[i] != (with_cmp ? want[n - 1 - i] : want[i])) e = with_cmp ? "sort(Array&, cmp) is not the ordered permutation of the first count items" : "sort(Array&) is not the ordered permutation of the first count items";
+        for (int k = 0; k < slack && !e; k++) if (arr.items[n + k] != (with_cmp ? 1000000 + k : -1000000 - k)) e = "sort(Array&) touched slots beyond count";
+        if (!e && arr.items[n + slack] != -777) e = "sort(Array&) touched slots beyond count";
+        arr.clear();
+        if (e) return e;
+    }
+    return NULL;
+}
 static void sort_fail(const std::string& sub, const std::vector<int>& keys, int mode, bool desc, const char* what, const std::string& replay) {
     std::vector<int> shown(keys.begin(), keys.begin() + std::min<size_t>(keys.size(), 64));
     R->violation(sub, what, {{"mode", jint(mode)}, {"n", jint((int64_t)keys.size())}},
@@ -665,6 +698,11 @@ static void sort_case(const std::string& sub, const std::vector<int>& keys, cons
             const char* e = check_sorted(keys, mode, d ? kp_greater : kp_less);
             if (e) sort_fail(sub, keys, mode, d, e, replay);
         }
+    {
+        const char* e = check_sort_overloads(keys);
+        if (e) sort_fail(sub, keys, 0, false, e, replay);
+        R->count("sort_overload_checks");
+    }
     R->count("cases");
     if (nontrivial) R->count("nontrivial");
 }
